@@ -33,7 +33,7 @@ LEVEL_TEXT = (
 LEVEL_NOTE = "Trusted: plain-tree equality; RefMap for comparing maps as functions."
 TECHNIQUE = "stateful property-based testing (Hypothesis-drawn operation histories) with replay/undo invariants after every step"
 BUDGET = {
-    "quick": {"shards": 8, "examples": 800},
+    "quick": {"shards": 8, "examples": 1200},
     "thorough": {"shards": 16, "examples": 9000},
 }
 
@@ -86,7 +86,7 @@ def generate(R: Draw, tier: str) -> dict:
     node = P.build(lib, doc)
     n = node.content.size
     desc = None
-    how = R.weighted([("op", 5), ("random", 4), ("nodemark", 3 if rs.mark_names else 0)])
+    how = R.weighted([("op", 5), ("random", 4), ("nodemark", 5 if rs.mark_names else 0)])
     if how == "nodemark":
         # a node that already carries marks, and a mark that interacts with them (exclusion / same type)
         from ..ref import resolve as RR
@@ -97,6 +97,9 @@ def generate(R: Draw, tier: str) -> dict:
             present = [m[0] for m in k.p["m"]]
             inter = [m for m in rs.mark_names if m in present or any(rs.excludes(m, x) or rs.excludes(x, m) for x in present)]
             mname = R.choice(inter) if inter and R.bool(0.8) else R.choice(rs.mark_names)
+            cross = [m for m in rs.mark_names if m not in present and any(rs.excludes(m, x) or rs.excludes(x, m) for x in present)]
+            if cross and R.bool(0.5):
+                mname = R.choice(cross)  # another TYPE that displaces (or is refused by) a mark on the node
             if R.bool(0.7):
                 desc = {"k": "addNodeMark", "pos": pos, "mark": g.mark(R, mname)}
             else:
